@@ -19,12 +19,14 @@ def make_f(counter, name, weights=(2, 3, 5), kw=(("k", 7), ("j", 11))):
     kwd = dict(kw)
 
     def f(*a, **k):
-        counter.calls.append((name, a, tuple(sorted(k.items(), key=lambda kv: kv[0]))))
+        # keyword arguments are logged and weighted in the order in which they ARRIVE (the order
+        # the call node holds them in is the order Python would evaluate and pass them in)
+        counter.calls.append((name, a, tuple(k.items())))
         r = 1
         for i, v in enumerate(a):
             r = r + weights[i % len(weights)] * v
-        for key, v in sorted(k.items(), key=lambda kv: kv[0]):    # order-insensitive (floats)
-            r = r + kwd.get(key, 13) * v
+        for n, (key, v) in enumerate(k.items()):
+            r = r + (n + 1) * kwd.get(key, 13) * v
         return r
     f.__name__ = name
     return f
